@@ -123,7 +123,7 @@ def gen_op(rng, rows, fresh):
     n = len(rows)
     lens = [len(r) for r in rows]
     ops = ['elem', 'elem', 'paired_reuse', 'row_same', 'row_diff',
-           'row_same_x', 'swap_rows',
+           'row_same_x', 'swap_rows', 'clone',
            'int_slice', 'twod_scalar',
            'twod_rows', 'twod_ra', 'slice_int', 'mask_scalar', 'mask_vals',
            'paired', 'append_list', 'append_ra', 'binop', 'rbinop', 'cmp',
@@ -148,6 +148,9 @@ def gen_op(rng, rows, fresh):
             return 'row_same', (0, fresh.take(lens[0]))
         r1, r2 = (int(x) for x in rng.choice(n, size=2, replace=False))
         return op, (r1, r2)
+    if op == 'clone':
+        # the history continues on a pickled / deep-copied instance
+        return op, (['pickle', 'deepcopy'][int(rng.integers(0, 2))],)
     if op == 'row_diff':
         r = int(rng.integers(-n, n))
         # a length-1 value legitimately broadcasts over a rectangular row
@@ -314,6 +317,12 @@ def run_case(ctx, kind, rng, idx):
                 rt = np.result_type(*[x.dtype for x in new_rows])
                 new_rows = [x.astype(rt) for x in new_rows]
                 a[r] = v.copy() if step % 2 else v.tolist()
+            elif op == 'clone':
+                import copy as _copy
+                import pickle as _pickle
+                (how_,) = args
+                a = _pickle.loads(_pickle.dumps(a)) if how_ == 'pickle' \
+                    else _copy.deepcopy(a)
             elif op == 'swap_rows':
                 r1, r2 = args
                 x1, x2 = rows[r1].copy(), rows[r2].copy()
